@@ -73,21 +73,22 @@ Proof. decide equality; apply string_dec. Defined.
 
 Definition exchange_mismatches (cs : list exchange_case) : list nat :=
   flat_map (fun c => match c with (i, reqs, L, p, rejects, inv, calls, rej) =>
-     let o := run unit string (scripted rejects) (transport L p) reqs tt in
-     if Nat.eqb (List.length (o_invoked o)) inv
-        && (if list_eq_dec obs_call_eq_dec (map call_obs (o_calls o)) calls then true else false)
-        && (if opt_string_eq_dec (o_error o) rej then true else false)
-     then [] else [i] end) cs.
+     match transport L p with
+     | None => (* refused by the client: nothing reaches the server *)
+       match inv, calls, rej with 0, [], None => [] | _, _, _ => [i] end
+     | Some p' =>
+       let o := run unit string (scripted rejects) p' reqs tt in
+       if Nat.eqb (List.length (o_invoked o)) inv
+          && (if list_eq_dec obs_call_eq_dec (map call_obs (o_calls o)) calls then true else false)
+          && (if opt_string_eq_dec (o_error o) rej then true else false)
+       then [] else [i]
+     end end) cs.
 
 (* ---- credential transport alone (also exercised by the witness streams) ---- *)
-(* (index, location, sent, received) and (index, user, password, received user, received password) *)
+(* (index, location, sent, received) *)
 Definition arrive_mismatches (cs : list (nat * loc * bytes * bytes)) : list nat :=
   flat_map (fun c => match c with (i, l, sent, got) =>
      if bytes_eq_dec (arrive l sent) got then [] else [i] end) cs.
-
-Definition basic_mismatches (cs : list (nat * bytes * bytes * bytes * bytes)) : list nat :=
-  flat_map (fun c => match c with (i, u, pw, gu, gp) =>
-     if bytes_eq_dec (fst (basic_roundtrip u pw)) gu then (if bytes_eq_dec (snd (basic_roundtrip u pw)) gp then [] else [i]) else [i] end) cs.
 
 (* byte strings are written by the harness as lists of small nat literals *)
 Definition bs (l : list nat) : bytes := map N.of_nat l.
